@@ -104,6 +104,21 @@ theorem gen_constants_ok :
     0 < RowsC02.cvHtol ∧ 0 < RowsC02.cvQtol ∧ 0 < RowsC02.pumpHtol ∧ 0 < RowsC02.newtonTol := by
   decide +kernel
 
+/-- **the generated constants ARE the documented ones** (`ref…` of `Model/LinkRows.lean`, which the simulation oracle uses):
+exactly for every literal, to 1e-9 relative for the four spline coefficients (computed in floating point by the code, exactly
+in ℚ by the reference) -/
+theorem gen_constants_are_reference :
+    RowsC02.hw.hwK = refHW.hwK ∧ RowsC02.hw.hwExp = refHW.hwExp ∧ RowsC02.hw.minorExp = refHW.minorExp ∧
+    RowsC02.hw.q1 = refHW.q1 ∧ RowsC02.hw.q2 = refHW.q2 ∧ RowsC02.hw.m = refHW.m ∧
+    RowsC02.hwF2 = refF2 ∧ RowsC02.hwDf2 = refDf2 ∧
+    absRat (RowsC02.hw.a - refHW.a) ≤ absRat refHW.a / 10 ^ 9 ∧ absRat (RowsC02.hw.b - refHW.b) ≤ absRat refHW.b / 10 ^ 9 ∧
+    absRat (RowsC02.hw.c - refHW.c) ≤ absRat refHW.c / 10 ^ 9 ∧ absRat (RowsC02.hw.d - refHW.d) ≤ absRat refHW.d / 10 ^ 9 ∧
+    RowsC02.pc = refPC ∧ RowsC02.lit = refLit ∧
+    RowsC02.cvHtol = refHtol ∧ RowsC02.cvQtol = refQtol ∧ RowsC02.pumpHtol = refHtol ∧ RowsC02.powerHtol = refHtol ∧
+    RowsC02.hwResistanceFormula = refHwResistance ∧ RowsC02.minorLossFormula = refLossCoeff ∧
+    RowsC02.tcvResistanceFormula = refLossCoeff := by
+  decide +kernel
+
 /-- default approximation: the row is `start_h − end_h − h(q)` with `h = hwLoss k m (eps·k^½) 1.852` -/
 theorem hwApprox_law (env : Env ℝ) (hw : HWConsts) (lit : RowLits) (L : Leaves) (h2 : hw.minorExp = 2) :
     eval realOps env (hwApproxRow hw lit L) =
